@@ -103,6 +103,11 @@ struct Ledger {
     /// last message of its response.
     xfer_start_ns: Option<u64>,
     xfer_final_tx_ns: Option<u64>,
+    /// Recovery phase: from this event on nothing misbehaves any more (every
+    /// peer answers normally, every upstream is healthy, connects succeed).
+    healed_seq: Option<u64>,
+    /// The first request of the recovery phase.
+    recovery_from_k: Option<usize>,
 }
 
 type Led = Rc<RefCell<Ledger>>;
@@ -257,8 +262,10 @@ fn react(led: &Led, kn: &Knobs, server: usize, health: Health, via: Via, req: &[
         Health::ServFail => Rcode::SERVFAIL,
         _ => Rcode::NOERROR,
     };
-    let act = decide(kn, via, health);
-    let base_delay = if kn.faulty { sim::draw("peer.delay", 20) } else { sim::draw("peer.delay", 4) };
+    let healed = led.borrow().healed_seq.is_some();
+    let (health, rcode) = if healed { (Health::Good, Rcode::NOERROR) } else { (health, rcode) };
+    let act = if healed { Act::Normal } else { decide(kn, via, health) };
+    let base_delay = if kn.faulty && !healed { sim::draw("peer.delay", 20) } else { sim::draw("peer.delay", 4) };
     ev!("peer{} {:?} rx k={:?} id={} act={:?}", server, via, k, p.id, act);
     if let (Via::Dgram, Some(k)) = (via, k) {
         led.borrow_mut().dgram_ids.entry(k).or_default().insert(p.id);
@@ -591,7 +598,7 @@ async fn stream_conn_peer(led: Led, kn: Knobs, server: usize, health: Health, ac
                 closing = Some(c);
             }
             n_rx += 1;
-            if kn.fin_after > 0 && n_rx == kn.fin_after && closing.is_none() {
+            if kn.fin_after > 0 && n_rx == kn.fin_after && closing.is_none() && led.borrow().healed_seq.is_none() {
                 fault(&led, Scope::Global, "fault.s.answer_all_then_fin");
                 orderly = true;
                 closing = Some(Cut::Fin);
@@ -738,8 +745,9 @@ fn pipe_cfg(faulty: bool) -> PipeCfg {
     c
 }
 
-fn stream_planner(faulty: bool, connect_faults_ok: bool, led_faults: Arc<std::sync::Mutex<Vec<u64>>>) -> Arc<dyn Fn(usize) -> ConnectPlan + Send + Sync> {
+fn stream_planner(faulty: bool, connect_faults_ok: bool, led_faults: Arc<std::sync::Mutex<Vec<u64>>>, healed: Arc<std::sync::atomic::AtomicBool>) -> Arc<dyn Fn(usize) -> ConnectPlan + Send + Sync> {
     Arc::new(move |_idx| {
+        let faulty = faulty && !healed.load(std::sync::atomic::Ordering::SeqCst);
         let mut p = ConnectPlan {
             client_cfg: pipe_cfg(faulty),
             server_cfg: pipe_cfg(faulty),
@@ -892,10 +900,12 @@ async fn run(_tier: Tier) {
     let mut ms_cfg = multi_stream::Config::from(st_cfg.clone());
     ms_cfg.set_response_timeout(Duration::from_millis(kn.ms_response_timeout_ms));
 
+    let healed = Arc::new(std::sync::atomic::AtomicBool::new(false));
+    let healed_dg = healed.clone();
     let led_for_dg = connect_faults.clone();
     let dg_planner: Arc<dyn Fn(usize) -> DgConnectPlan + Send + Sync> = Arc::new(move |_i| {
         let mut p = DgConnectPlan::default();
-        if faulty {
+        if faulty && !healed_dg.load(std::sync::atomic::Ordering::SeqCst) {
             match sim::draw("net.dg_connect", 30) {
                 28 => {
                     p.fail_connect = true;
@@ -911,7 +921,7 @@ async fn run(_tier: Tier) {
         p
     });
     let mk_dg = |s: usize| SimDgConnector::new(&udp, 1, addr(100 + s as u8, 53), DgramFaults::default(), dg_planner.clone());
-    let mk_st = |s: usize| listeners[s].connector(addr(1, 40_000), stream_planner(faulty, kind != Kind::Stream, connect_faults.clone()));
+    let mk_st = |s: usize| listeners[s].connector(addr(1, 40_000), stream_planner(faulty, kind != Kind::Stream, connect_faults.clone(), healed.clone()));
 
     // Build the transport under test.
     type ReqMulti = domain::net::client::request::RequestMessageMulti<Vec<u8>>;
@@ -1089,10 +1099,53 @@ async fn run(_tier: Tier) {
             _ = ex2.run() => {}
         }
     };
-    let finished = tokio::time::timeout(Duration::from_secs(3600), driver).await.is_ok();
+    let mut finished = tokio::time::timeout(Duration::from_secs(3600), driver).await.is_ok();
     sim::sync_clock();
     if sim::over_cap() {
         return;
+    }
+    // Recovery phase: the faults stop - every peer answers normally from now
+    // on, every upstream is healthy, connects go through. After a quiet
+    // period that outlasts every timeout, back-off and idle timer in play
+    // (whatever was late has arrived, whatever was broken has been noticed),
+    // a few more requests are made, far enough apart for any burst limit:
+    // nothing touches them, so each gets its own answer. (Not over the bare
+    // stream connection: it has no way back from a broken or idle-closed
+    // connection, which is documented.)
+    let mut total = total;
+    if finished && kind != Kind::Stream && !sim::stopped() && sim::chance("recovery_phase", 1, 2) {
+        sim::stat("probe.recovery_phase");
+        healed.store(true, std::sync::atomic::Ordering::SeqCst);
+        let seq = ev!("the faults stop");
+        led.borrow_mut().healed_seq = Some(seq);
+        sim::sleep_ms(200_000).await;
+        let n = 1 + sim::draw("recovery.n_reqs", 3) as usize;
+        let ks: Vec<usize> = (total..total + n).collect();
+        led.borrow_mut().recovery_from_k = Some(total);
+        total += n;
+        for _ in 0..n {
+            let mut l = led.borrow_mut();
+            l.reqs.push(ReqRec {
+                start_ns: 0,
+                end: None,
+                after_idle_close: false,
+            });
+            l.answered_ns.push(None);
+        }
+        let h = exec.spawn("recovery".to_string(), client_task(led.clone(), kn, conn.clone(), ks, vec![11_000; n]));
+        let ex3 = exec.clone();
+        let driver = async move {
+            tokio::select! {
+                biased;
+                _ = h.join() => {}
+                _ = ex3.run() => {}
+            }
+        };
+        finished = tokio::time::timeout(Duration::from_secs(3600), driver).await.is_ok();
+        sim::sync_clock();
+        if sim::over_cap() {
+            return;
+        }
     }
     check(&led, &kn, total, finished, &connect_faults.lock().unwrap(), n_clients);
 }
@@ -1192,7 +1245,22 @@ fn check(led: &Led, kn: &Knobs, total: usize, finished: bool, connect_faults: &[
                 return;
             }
         }
-        let explained = l.faults.iter().any(|(s, sc, _)| *s < *end_seq && (*sc == Scope::Global || *sc == Scope::Req(k))) || connect_faults.iter().any(|s| *s < *end_seq);
+        let recovery = l.recovery_from_k.is_some_and(|f| k >= f);
+        let explained = !recovery && (l.faults.iter().any(|(s, sc, _)| *s < *end_seq && (*sc == Scope::Global || *sc == Scope::Req(k))) || connect_faults.iter().any(|s| *s < *end_seq));
+        if recovery {
+            // Nothing has misbehaved since long before this request was made.
+            match outcome {
+                Outcome::Err(e) => {
+                    sim::violation(P, "recovery", format!("request-failed-long-after-the-faults-stopped/{:?}/{}", kn.kind, short_err(e)), format!("request k={}, made 200 s or more after the last fault of the run (every peer healthy and answering normally since), failed with {}", k, e));
+                    return;
+                }
+                Outcome::Ok(p) if p.rcode != Rcode::NOERROR || p.tokens.is_empty() => {
+                    sim::violation(P, "recovery", format!("request-not-answered-by-a-peer-long-after-the-faults-stopped/{:?}", kn.kind), format!("request k={}, made 200 s or more after the last fault of the run, was handed rcode {} with tokens {:?} although every peer answers NOERROR with a token", k, p.rcode, p.tokens));
+                    return;
+                }
+                _ => {}
+            }
+        }
         match outcome {
             Outcome::Ok(p) => {
                 let header_only = p.qdcount == 0 && p.ancount == 0 && p.nscount == 0 && p.arcount == 0 && p.rcode != Rcode::NOERROR;
